@@ -13,7 +13,7 @@ from pyvc import smt, views
 from pyvc.smt import I
 from pyvc.values import *          # noqa
 from pyvc.values import eqv, veq   # noqa
-from pyvc.engine import IntDictV, CellListV
+from pyvc.engine import IntDictV, CellListV, EmptyDictV, DictV
 from pyvc.contract import *        # noqa
 from pyvc.views import View, AbsView, AX
 from contracts.leaves import self_view
@@ -345,9 +345,17 @@ def _from_list_post(S, o):
     if o.kind == 'raise':
         return [('from_list:no-exception-for-a-list', smt.F)]
     v = o.value
+    if env['immutable_warranty'].s == 'wu' and isinstance(v, StageV) and v.cls == 'ListDataset':
+        # ListDataset over NumpySerializedList(examples): every read unpickles from the byte buffer (contracts/wu.py)
+        st_ = v.args[0] if v.args else None
+        return [('C09:wu-mode-stores-the-examples-in-a-NumpySerializedList-built-from-the-given-list',
+                 z3.BoolVal(isinstance(st_, StageV) and st_.cls == 'NumpySerializedList' and len(st_.args) == 1
+                            and st_.args[0] is env['examples']))]
     ok = isinstance(v, StageV) and v.cls == 'MapDataset' and isinstance(v.args[1], StageV) and v.args[1].cls == 'ListDataset'
     if not ok:
         return [('C09:from_list-is-ListDataset(stored).map(deserialize)', smt.F)]
+    if env['immutable_warranty'].s == 'wu':
+        return [('C09:wu-mode-must-use-the-serialised-list', smt.F)]
     de, inner = v.args
     stored = inner.args[0]
     fn_ok = hasattr(stored, 'mapped') and stored.mapped[1] is env['examples'] and \
@@ -382,7 +390,16 @@ class SerialisersC(FuncContract):
         'from_dict': [Variant(m, params={'examples': _mk_dict, 'immutable_warranty': _mode(m), 'name': 'none'},
                               post=_from_dict_post, hooks=_c09_hooks(), props=('C09',)) for m in ('pickle', 'copy')],
         'from_list': [Variant(m, params={'examples': _mk_list, 'immutable_warranty': _mode(m), 'name': 'none'},
-                              post=_from_list_post, hooks=_c09_hooks(), props=('C09',)) for m in ('pickle', 'copy')],
+                              post=_from_list_post, hooks=_c09_hooks(), props=('C09',)) for m in ('pickle', 'copy', 'wu')],
+        # new(): dispatch on the container type; the result obeys the contract of the factory it selects
+        'new': [Variant('dict-' + m, params={'examples': _mk_dict, 'immutable_warranty': _mode(m), 'name': 'none'},
+                        post=_from_dict_post, hooks=_c09_hooks(), props=('C09',)) for m in ('pickle', 'copy')]
+        + [Variant('list-' + m, params={'examples': _mk_list, 'immutable_warranty': _mode(m), 'name': 'none'},
+                   post=_from_list_post, hooks=_c09_hooks(), props=('C09',)) for m in ('pickle', 'copy', 'wu')]
+        + [Variant('unsupported-container', params={'examples': 'int', 'immutable_warranty': _mode('pickle'), 'name': 'none'},
+                   post=lambda S, o: [('C09:new-rejects-a-container-it-cannot-isolate',
+                                       exc_is(o.exc, S.eng.hier, 'TypeError') if o.kind == 'raise' else smt.F)],
+                   hooks=_c09_hooks(), props=('C09',))],
     }
 
 
@@ -407,7 +424,39 @@ def _cw_set_post(S, o):
     k, v = S.old.key, S.old.value
     if o.kind not in ('normal', 'return'):
         return [('cachewrapper:store-does-not-raise', smt.F)]
-    return [('C09:store-keeps-serialize(value)-not-the-object', z3.And(c['dom'](k), c['sto'](k) == SER(v), IS_BYTES(c['sto'](k))))]
+    me0 = S.eng.entry_heap[S.eng.self_oid]
+    c0 = S.eng.entry_heap[me0['cache'].oid]
+    g = z3.Int('g_other_key')       # frame at a generic other key: nothing else in the cache changes
+    return [('C09:store-keeps-serialize(value)-not-the-object', z3.And(c['dom'](k), c['sto'](k) == SER(v), IS_BYTES(c['sto'](k)))),
+            ('C10:frame:a-store-changes-no-other-entry',
+             z3.Implies(g != k, z3.And(c['dom'](g) == c0['dom'](g), c['sto'](g) == c0['sto'](g)))),
+            ('C10:frame:the-store-keeps-its-serialisers-and-its-dict-object',
+             z3.BoolVal(me['cache'].oid == me0['cache'].oid and me['_serialize'] is me0['_serialize']
+                        and me['_deserialize'] is me0['_deserialize']))]
+
+
+def _cw_contains_post(S, o):
+    me = S.eng.entry_heap[S.eng.self_oid]
+    c = S.eng.entry_heap[me['cache'].oid]
+    k = S.old.item
+    if o.kind == 'return' and isinstance(o.value, BoolV):
+        return [('C10:contains-is-membership-in-the-stored-dict', o.value.t == c['dom'](k)),
+                ('C10:frame:contains-changes-nothing', z3.BoolVal(S.st.heap[me['cache'].oid] is c or
+                                                                  S.st.heap[me['cache'].oid] == c))]
+    return [('C10:contains-returns-a-bool', smt.F)]
+
+
+def _cw_init_post(S, o):
+    if o.kind not in ('normal', 'return'):
+        return [('cachewrapper:init-does-not-raise', smt.F)]
+    me = S.st.heap[S.eng.self_oid]
+    cache = me.get('cache')
+    ok_empty = isinstance(cache, EmptyDictV) or (isinstance(cache, DictV) and not S.st.heap[cache.oid])
+    ser, de = me.get('_serialize'), me.get('_deserialize')
+    return [('C10:a-new-cache-is-empty', z3.BoolVal(bool(ok_empty))),
+            ('C09:pickle-mode-stores-pickle.dumps-and-reads-pickle.loads',
+             z3.BoolVal(isinstance(ser, BuiltinV) and ser.name == 'pickle.dumps' and isinstance(de, BuiltinV)
+                        and de.name == 'pickle.loads'))]
 
 
 class CacheWrapperC(ClassContract):
@@ -421,10 +470,26 @@ class CacheWrapperC(ClassContract):
                                 inline=('__getitem__',))],
         '__setitem__': [Variant('int', params={'key': 'int', 'value': 'obj'}, post=_cw_set_post, hooks=cache_hooks(),
                                 props=('C09', 'C10'), inline=('__setitem__',))],
+        '__contains__': [Variant('int', params={'item': 'int'}, post=_cw_contains_post, hooks=cache_hooks(), props=('C10',),
+                                 inline=('__contains__',))],
     }
 
 
-CONTRACTS = [CacheDatasetC(), SerialisersC(), CacheWrapperC()]
+class CacheWrapperInitC(ClassContract):
+    cls = '_CacheWrapper'
+
+    def fields(self, eng, st):
+        return {}
+
+    def view(self, eng, st):
+        return None
+    methods = {
+        '__init__': [Variant('pickle', params={'immutable_warranty': (lambda e, s: StrV('pickle'))}, post=_cw_init_post,
+                             hooks=cache_hooks(), props=('C09', 'C10'))],
+    }
+
+
+CONTRACTS = [CacheDatasetC(), SerialisersC(), CacheWrapperC(), CacheWrapperInitC()]
 
 
 # =============================================================== C11: disk cache
@@ -657,7 +722,7 @@ class DiskCacheDatasetC(ClassContract):
                                 props=('C11', 'C13'))]}
 
 
-CONTRACTS = [CacheDatasetC(), SerialisersC(), CacheWrapperC(), _mk_dcw(True), _mk_dcw(False), DiskCacheDatasetC()]
+CONTRACTS = [CacheDatasetC(), SerialisersC(), CacheWrapperC(), CacheWrapperInitC(), _mk_dcw(True), _mk_dcw(False), DiskCacheDatasetC()]
 
 
 # =============================================================== C10: eager caching = snapshot (new / from_dataset / Dataset.cache)
